@@ -20,9 +20,11 @@ abbrev Str := List Char
 
 /-! ### text helpers (`str.strip`, `str.lower`, `re.split(r'\s*,\s*')`) -/
 
-/-- ASCII members of `str.isspace` / regex `\s` -/
+/-- ASCII members of `str.isspace` / regex `\s` (for `str` patterns `\s` is `str.isspace`, which
+includes the separators FS, GS, RS, US = 0x1c..0x1f) -/
 def isWs (c : Char) : Bool :=
   c == ' ' || c == '\t' || c == '\n' || c == '\r' || c == '\x0b' || c == '\x0c'
+  || c == '\x1c' || c == '\x1d' || c == '\x1e' || c == '\x1f'
 
 /-- `str.strip()` -/
 def trim (s : Str) : Str := ((s.dropWhile isWs).reverse.dropWhile isWs).reverse
@@ -104,11 +106,8 @@ def isDigit (c : Char) : Bool := '0' ≤ c && c ≤ '9'
 
 def digitsVal (ds : Str) : Nat := ds.foldl (fun n c => 10 * n + (c.toNat - '0'.toNat)) 0
 
-/-- `float(q)` on the grammar slice `DIGIT* [ "." DIGIT{0,3} ]` with at least one digit, as
-thousandths. Everything else is `none` (= the `ValueError` of `float`). Spellings that `float`
-accepts beyond this slice (sign, exponent, `inf`, `_`, more than three decimals) are outside the
-model (DESIGN: modelled, not verified). -/
-def parseQ (s : Str) : Option Nat :=
+/-- unsigned part of `parseQ` -/
+def parseQAbs (s : Str) : Option Nat :=
   match splitOn '.' s with
   | [i] => if i.length ≥ 1 && i.all isDigit then some (digitsVal i * 1000) else none
   | [i, f] =>
@@ -116,6 +115,16 @@ def parseQ (s : Str) : Option Nat :=
       some (digitsVal i * 1000 + digitsVal f * 10 ^ (3 - f.length))
     else none
   | _ => none
+
+/-- `float(q)` on the grammar slice `ws* [+-]? DIGIT* [ "." DIGIT{0,3} ] ws*` with at least one
+digit, as thousandths (`-0` and `0` are the same key, as `-0.0 == 0.0`). Everything else is `none`
+(= the `ValueError` of `float`). Spellings that `float` accepts beyond this slice (exponent, `inf`,
+`nan`, `_`, more than three decimals) are outside the model (DESIGN: modelled, not verified). -/
+def parseQ (s : Str) : Option Int :=
+  match trim s with
+  | '-' :: r => (parseQAbs r).map (fun n => - (n : Int))
+  | '+' :: r => (parseQAbs r).map (fun n => (n : Int))
+  | r => (parseQAbs r).map (fun n => (n : Int))
 
 /-! ### `Encoding` and `Encoding.parse` -/
 
@@ -132,7 +141,7 @@ sort key `float(o.get('q', 1))` in thousandths -/
 structure Range where
   kind : Str
   params : Options
-  q : Nat
+  q : Int
   deriving DecidableEq, Repr
 
 /-- `cls(m, **{k: v for k, v in o.items() if k != 'q'})` -/
@@ -330,5 +339,29 @@ def Cell.render : Cell → Str
 
 /-- `read_csv` of a one-cell column -/
 def Cell.read (s : Str) : Cell := if looksNumeric s then .int (digitsVal s) else .text s
+
+/-! ### float cells through the JSON encoders
+
+Every JSON encoder of `ENCODERS` is `DataFrame.to_json` with its default `double_precision=10`: a
+float cell is written with at most ten decimal places, the rest is rounded away; the readers take
+the written decimal as it stands. Magnitudes only (the sign is carried through unchanged). -/
+
+/-- the decimal number `n / 10^scale` -/
+structure Dec where
+  n : Nat
+  scale : Nat
+  deriving DecidableEq, Repr
+
+/-- equality of the denoted numbers -/
+def Dec.same (a b : Dec) : Bool := a.n * 10 ^ b.scale == b.n * 10 ^ a.scale
+
+/-- `double_precision` of `DataFrame.to_json` as used by `ENCODERS` (the pandas default) -/
+def jsonPrecision : Nat := 10
+
+/-- what the JSON encoders write for a float cell: unchanged up to ten decimal places, otherwise
+rounded (to nearest) to ten places -/
+def Dec.jsonRender (d : Dec) : Dec :=
+  if d.scale ≤ jsonPrecision then d
+  else ⟨(d.n + 5 * 10 ^ (d.scale - jsonPrecision - 1)) / 10 ^ (d.scale - jsonPrecision), jsonPrecision⟩
 
 end ForML.Codec
